@@ -325,6 +325,17 @@ def work(item):
                     st.violation("equal-but-serialize-differently", "%s == %s but they serialize to %s and %s" % (li, lj, jsa[:200], jsb[:200]), {"a": li, "b": lj, "json_a": jsa[:500], "json_b": jsb[:500]})
             elif not ab:
                 st.outcome("unequal-pair")
+            # replacement by a reference to a definition: only ever for an equal one
+            try:
+                doc = serialize_json(Array(a), definitions={"d": b})
+                replaced = doc.get("items") == {"$ref": "#/definitions/d"}
+            except Exception as exc:
+                st.violation("serialize-with-definitions-raised:%s" % type(exc).__name__, "Array(%s) with definitions {d: %s}: %r" % (li, lj, exc), {"a": li, "b": lj})
+                replaced = False
+            if replaced and not ab:
+                st.violation("replaced-by-unequal-definition", "serialize_json(Array(%s), definitions={'d': %s}) replaces the items by a reference to the definition although the two are not equal" % (li, lj), {"a": li, "b": lj, "document": doc})
+            elif replaced:
+                st.outcome("replaced-by-equal-definition")
         if i % 50 == 0:
             st.sample({"element": li, "compared_with": n})
     return st
